@@ -35,9 +35,28 @@ def table(path, title, describe):
 def seeded_desc(sid):
     p = os.path.join(VERIF, "seeded", sid, "meta.json")
     try:
-        return json.load(open(p)).get("summary", "see seeded/%s/notes.md" % sid)
+        meta = json.load(open(p))
     except Exception:
         return ""
+    if meta.get("summary"):
+        return meta["summary"]
+    # first descriptive sentence of the author's notes
+    try:
+        lines = open(os.path.join(VERIF, "seeded", sid, "notes.md")).read().splitlines()
+    except Exception:
+        return "see seeded/%s/notes.md" % sid
+    text = []
+    for l in lines:
+        l = l.strip()
+        if not l or l.startswith(("#", "```", "|", "$")):
+            if text:
+                break
+            continue
+        text.append(l.lstrip("*- "))
+        if len(" ".join(text)) > 170:
+            break
+    out = " ".join(text).replace("|", "/")
+    return (out[:200] + "...") if len(out) > 200 else out
 
 
 def mutant_desc(sid):
